@@ -131,6 +131,8 @@ pub struct Analysis {
   pub decl_kinds: IndexMap<String, String>,
   /// names of `export default interface X` declarations
   pub default_ifaces: BTreeSet<String>,
+  /// (specifier, imported or re-exported name) of every named / default import and `export { x } from`
+  pub named_refs: Vec<(String, String)>,
 }
 
 fn pat_names(p: &Pat, out: &mut BTreeSet<String>) {
@@ -361,7 +363,7 @@ pub fn analyze(url: &str, text: &str, check_erasure: bool) -> Result<Analysis, S
   .map_err(|e| e.to_string())?;
   let program = parsed.program();
   let Program::Module(module) = &*program else { return Err("not a module".into()) };
-  let mut a = Analysis { top_level: Default::default(), exports: Default::default(), stars: vec![], unresolved: Default::default(), erasure: vec![], decl_kinds: Default::default(), default_ifaces: Default::default() };
+  let mut a = Analysis { top_level: Default::default(), exports: Default::default(), stars: vec![], unresolved: Default::default(), erasure: vec![], decl_kinds: Default::default(), default_ifaces: Default::default(), named_refs: vec![] };
   for item in &module.body {
     match item {
       ModuleItem::Stmt(Stmt::Decl(d)) => decl_names(d, &mut a.top_level, &mut a.decl_kinds),
@@ -369,6 +371,11 @@ pub fn analyze(url: &str, text: &str, check_erasure: bool) -> Result<Analysis, S
       ModuleItem::ModuleDecl(md) => match md {
         ModuleDecl::Import(i) => {
           for s in &i.specifiers {
+            match s {
+              ImportSpecifier::Named(n) => a.named_refs.push((i.src.value.to_string_lossy().into_owned(), n.imported.as_ref().map(export_name).unwrap_or_else(|| n.local.sym.to_string()))),
+              ImportSpecifier::Default(_) => a.named_refs.push((i.src.value.to_string_lossy().into_owned(), "default".into())),
+              ImportSpecifier::Namespace(_) => {}
+            }
             let n = match s {
               ImportSpecifier::Named(n) => n.local.sym.to_string(),
               ImportSpecifier::Default(d) => d.local.sym.to_string(),
@@ -385,6 +392,9 @@ pub fn analyze(url: &str, text: &str, check_erasure: bool) -> Result<Analysis, S
         }
         ModuleDecl::ExportNamed(n) => {
           for s in &n.specifiers {
+            if let (Some(src), ExportSpecifier::Named(x)) = (&n.src, s) {
+              a.named_refs.push((src.value.to_string_lossy().into_owned(), export_name(&x.orig)));
+            }
             match s {
               ExportSpecifier::Named(x) => {
                 a.exports.insert(x.exported.as_ref().map(export_name).unwrap_or_else(|| export_name(&x.orig)));
@@ -542,7 +552,22 @@ pub fn project(world: &FcWorld, g: &ModuleGraph) -> Value {
               // identifiers that referred to a top-level declaration/import of the original but are unresolved now
               let dangling: Vec<String> = orig.as_ref().map(|o| a.unresolved.iter().filter(|n| o.top_level.contains(*n)).cloned().collect()).unwrap_or_default();
               v["dangling"] = json!(dangling);
+              // names imported / re-exported by name from a module of the analysed packages must be exported by what
+              // the type checker will see for that module: its emitted counterpart, or its original when none was emitted
+              let mut missing = vec![];
+              for (sp, name) in &a.named_refs {
+                if let Ok(t) = spec.join(sp)
+                  && originals.contains_key(t.as_str())
+                  && !export_names(&emitted, &originals, t.as_str(), &mut BTreeSet::new()).contains(name)
+                  // the original did not export it either: not introduced by the transform
+                  && export_names(&originals, &originals, t.as_str(), &mut BTreeSet::new()).contains(name)
+                {
+                  missing.push(format!("{name} from {sp}"));
+                }
+              }
+              v["missingImports"] = json!(missing);
               v["erasure"] = json!(a.erasure);
+              v["sigDiffs"] = json!(signature_diffs(&url, &originals[&url], &fc.source));
               if let Some(sig) = subject_sig(&url, &fc.source) {
                 v["sig"] = json!(sig);
               }
@@ -581,6 +606,211 @@ pub fn project(world: &FcWorld, g: &ModuleGraph) -> Value {
     })
     .collect();
   json!({"mods": mods, "pkgs": pkgs})
+}
+
+/// C11 "signatures carried over": structural comparison (spans ignored) of the type-level skeleton of every declaration
+/// that occurs at top level in both the original and the emitted module. Interfaces, type aliases and enums must be
+/// identical; functions, class members and variables must keep their type parameters, annotated parameter types,
+/// annotated return / property / variable types and modifiers. Parameters with default values are excluded here (their
+/// normalisation is modelled in Transform.tla). Returns the names that differ, with the aspect.
+pub fn signature_diffs(url: &str, original: &str, emitted: &str) -> Vec<String> {
+  use deno_ast::swc::common::EqIgnoreSpan;
+  let parse = |text: &str| {
+    let spec = ModuleSpecifier::parse(url).ok()?;
+    deno_ast::parse_module(deno_ast::ParseParams {
+      specifier: spec.clone(),
+      text: text.into(),
+      media_type: MediaType::from_specifier(&spec),
+      capture_tokens: false,
+      scope_analysis: false,
+      maybe_syntax: None,
+    })
+    .ok()
+  };
+  let (Some(po), Some(pe)) = (parse(original), parse(emitted)) else { return vec![] };
+  fn decls(m: &deno_ast::swc::ast::Module) -> HashMap<String, Vec<Decl>> {
+    let mut out: HashMap<String, Vec<Decl>> = HashMap::new();
+    let mut add = |d: &Decl| {
+      let name = match d {
+        Decl::Class(c) => c.ident.sym.to_string(),
+        Decl::Fn(f) => f.ident.sym.to_string(),
+        Decl::TsInterface(i) => i.id.sym.to_string(),
+        Decl::TsTypeAlias(a) => a.id.sym.to_string(),
+        Decl::TsEnum(e) => e.id.sym.to_string(),
+        Decl::Var(v) => match v.decls.first().map(|d| &d.name) {
+          Some(Pat::Ident(i)) if v.decls.len() == 1 => i.id.sym.to_string(),
+          _ => return,
+        },
+        _ => return,
+      };
+      out.entry(name).or_default().push(d.clone());
+    };
+    for item in &m.body {
+      match item {
+        ModuleItem::Stmt(Stmt::Decl(d)) => add(d),
+        ModuleItem::ModuleDecl(ModuleDecl::ExportDecl(e)) => add(&e.decl),
+        _ => {}
+      }
+    }
+    out
+  }
+  fn fn_diff(o: &Function, e: &Function, out: &mut Vec<&'static str>) {
+    if !o.type_params.eq_ignore_span(&e.type_params) {
+      out.push("type-params");
+    }
+    if o.return_type.is_some() && !o.return_type.eq_ignore_span(&e.return_type) {
+      out.push("return-type");
+    }
+    if o.params.len() != e.params.len() {
+      out.push("param-count");
+      return;
+    }
+    for (a, b) in o.params.iter().zip(e.params.iter()) {
+      match (&a.pat, &b.pat) {
+        (Pat::Ident(x), Pat::Ident(y)) if x.type_ann.is_some() => {
+          if !x.eq_ignore_span(y) {
+            out.push("param");
+          }
+        }
+        (Pat::Rest(x), Pat::Rest(y)) if x.type_ann.is_some() => {
+          if !x.type_ann.eq_ignore_span(&y.type_ann) {
+            out.push("rest-param");
+          }
+        }
+        (Pat::Ident(_), Pat::Ident(_)) | (Pat::Assign(_), _) | (Pat::Object(_), _) | (Pat::Array(_), _) | (Pat::Rest(_), Pat::Rest(_)) => {}
+        _ => out.push("param-form"),
+      }
+    }
+  }
+  let (Program::Module(mo), Program::Module(me)) = (&*po.program(), &*pe.program()) else { return vec![] };
+  let (dm_o, dm_e) = (decls(mo), decls(me));
+  let mut diffs = vec![];
+  for (name, ds_e) in &dm_e {
+    let Some(ds_o) = dm_o.get(name) else { continue };
+    // overloads: compared by the specialised shapes, not here
+    if ds_o.len() != 1 || ds_e.len() != 1 {
+      continue;
+    }
+    let mut d: Vec<&'static str> = vec![];
+    match (&ds_o[0], &ds_e[0]) {
+      (Decl::TsInterface(a), Decl::TsInterface(b)) => {
+        if !(a.id.eq_ignore_span(&b.id) && a.type_params.eq_ignore_span(&b.type_params) && a.extends.eq_ignore_span(&b.extends) && a.body.eq_ignore_span(&b.body)) {
+          d.push("interface");
+        }
+      }
+      (Decl::TsTypeAlias(a), Decl::TsTypeAlias(b)) => {
+        if !(a.type_params.eq_ignore_span(&b.type_params) && a.type_ann.eq_ignore_span(&b.type_ann)) {
+          d.push("type-alias");
+        }
+      }
+      (Decl::TsEnum(a), Decl::TsEnum(b)) => {
+        if a.is_const != b.is_const || a.members.len() != b.members.len() || !a.members.iter().zip(b.members.iter()).all(|(x, y)| x.id.eq_ignore_span(&y.id)) {
+          d.push("enum");
+        }
+      }
+      (Decl::Fn(a), Decl::Fn(b)) => fn_diff(&a.function, &b.function, &mut d),
+      (Decl::Var(a), Decl::Var(b)) => {
+        if a.kind != b.kind {
+          d.push("var-kind");
+        }
+        if let (Some(Pat::Ident(x)), Some(Pat::Ident(y))) = (a.decls.first().map(|d| &d.name), b.decls.first().map(|d| &d.name))
+          && x.type_ann.is_some()
+          && !x.type_ann.eq_ignore_span(&y.type_ann)
+        {
+          d.push("var-type");
+        }
+      }
+      (Decl::Class(a), Decl::Class(b)) => {
+        let (ca, cb) = (&a.class, &b.class);
+        if !ca.type_params.eq_ignore_span(&cb.type_params) {
+          d.push("class-type-params");
+        }
+        if !ca.implements.eq_ignore_span(&cb.implements) {
+          d.push("class-implements");
+        }
+        if ca.is_abstract != cb.is_abstract {
+          d.push("class-abstract");
+        }
+        if ca.super_class.is_some() != cb.super_class.is_some() || !ca.super_type_params.eq_ignore_span(&cb.super_type_params) {
+          d.push("class-extends");
+        }
+        let key_count = |c: &Class, k: &PropName, st: bool| c.body.iter().filter(|m| match m {
+          ClassMember::Method(m) => m.key.eq_ignore_span(k) && m.is_static == st,
+          ClassMember::ClassProp(p) => p.key.eq_ignore_span(k) && p.is_static == st,
+          _ => false,
+        }).count();
+        for m in &ca.body {
+          match m {
+            ClassMember::Method(mo_) if mo_.accessibility != Some(Accessibility::Private) => {
+              if key_count(ca, &mo_.key, mo_.is_static) != 1 {
+                continue;
+              }
+              let found = cb.body.iter().find_map(|x| match x { ClassMember::Method(y) if y.key.eq_ignore_span(&mo_.key) && y.is_static == mo_.is_static => Some(y), _ => None });
+              match found {
+                None => d.push("method-missing"),
+                Some(y) => {
+                  if y.kind != mo_.kind || y.is_optional != mo_.is_optional || y.is_abstract != mo_.is_abstract || y.accessibility != mo_.accessibility {
+                    d.push("method-modifiers");
+                  }
+                  fn_diff(&mo_.function, &y.function, &mut d);
+                }
+              }
+            }
+            ClassMember::ClassProp(p) if p.accessibility != Some(Accessibility::Private) && p.type_ann.is_some() => {
+              if key_count(ca, &p.key, p.is_static) != 1 {
+                continue;
+              }
+              let found = cb.body.iter().find_map(|x| match x { ClassMember::ClassProp(y) if y.key.eq_ignore_span(&p.key) && y.is_static == p.is_static => Some(y), _ => None });
+              match found {
+                None => d.push("prop-missing"),
+                Some(y) => {
+                  if !y.type_ann.eq_ignore_span(&p.type_ann) {
+                    d.push("prop-type");
+                  }
+                  if y.readonly != p.readonly || y.is_optional != p.is_optional || y.is_abstract != p.is_abstract || y.accessibility != p.accessibility {
+                    d.push("prop-modifiers");
+                  }
+                }
+              }
+            }
+            ClassMember::Constructor(k) if k.accessibility != Some(Accessibility::Private) => {
+              let found = cb.body.iter().find_map(|x| match x { ClassMember::Constructor(y) => Some(y), _ => None });
+              match found {
+                None => d.push("ctor-missing"),
+                Some(y) => {
+                  if y.params.len() != k.params.len() {
+                    d.push("ctor-param-count");
+                  } else {
+                    for (pa, pb) in k.params.iter().zip(y.params.iter()) {
+                      if let (ParamOrTsParamProp::Param(pa), ParamOrTsParamProp::Param(pb)) = (pa, pb)
+                        && let (Pat::Ident(x), Pat::Ident(z)) = (&pa.pat, &pb.pat)
+                        && x.type_ann.is_some()
+                        && !x.eq_ignore_span(z)
+                      {
+                        d.push("ctor-param");
+                      }
+                    }
+                  }
+                }
+              }
+            }
+            _ => {}
+          }
+        }
+      }
+      (a, b) => {
+        if std::mem::discriminant(a) != std::mem::discriminant(b) {
+          d.push("declaration-kind");
+        }
+      }
+    }
+    for x in d {
+      diffs.push(format!("{name}:{x}"));
+    }
+  }
+  diffs.sort();
+  diffs.dedup();
+  diffs
 }
 
 /// Parameter list of the declaration called `subject` / `Subject` (function, method, constructor or arrow const) in
@@ -729,10 +959,10 @@ pub fn gen_world(rng: &mut StdRng, slow: f64) -> FcWorld {
       let n = g.rng.gen_range(2..=5);
       let mut ds = vec![];
       for i in 0..n {
-        let kind = ["iface", "alias", "func", "class", "konst", "enum", "ns"][g.rng.gen_range(0..7)];
+        let kind = ["iface", "alias", "func", "class", "konst", "enum", "ns", "gfunc", "aclass", "giface"][g.rng.gen_range(0..10)];
         let exported = g.rng.gen_bool(0.6);
         let name = format!("{}{}_{}{}", &kind[..1].to_uppercase(), i, pk, f.replace(".ts", ""));
-        if exported && matches!(kind, "iface" | "alias" | "class" | "enum") {
+        if exported && matches!(kind, "iface" | "alias" | "class" | "enum" | "aclass") {
           typeish.entry((pk.clone(), f.clone())).or_default().push(name.clone());
         }
         ds.push((name, kind, exported));
@@ -759,6 +989,10 @@ pub fn gen_world(rng: &mut StdRng, slow: f64) -> FcWorld {
             6 | 7 => {
               // a type exported by another file (same or other package)
               let (opk, ofiles) = &layout[g.rng.gen_range(0..layout.len())];
+              // another package is consumed through its entrypoint only (fast check analyses a dependency package
+              // from its exports; reaching into its internal files is outside the analysed domain)
+              let mod_only = vec!["mod.ts".to_string()];
+              let ofiles = if opk == pk { ofiles } else { &mod_only };
               let of = &ofiles[g.rng.gen_range(0..ofiles.len())];
               if (opk, of) == (pk, f) {
                 return "string".to_string();
@@ -766,6 +1000,17 @@ pub fn gen_world(rng: &mut StdRng, slow: f64) -> FcWorld {
               match typeish.get(&(opk.clone(), of.clone())) {
                 Some(v) if !v.is_empty() => {
                   let n = v[g.rng.gen_range(0..v.len())].clone();
+                  // import it from the file that declares it, or through the barrel chain a.ts -> b.ts -> c.ts
+                  // (`export *` forwarding, see below) when the declaring file is further down the chain
+                  let chain = ["a.ts", "b.ts", "c.ts"];
+                  let via = match chain.iter().position(|c| c == of) {
+                    Some(pos) if pos > 0 && g.rng.gen_bool(0.4) => {
+                      let start = g.rng.gen_range(0..pos);
+                      if (start..=pos).all(|i| ofiles.contains(&chain[i].to_string())) && !(opk == pk && chain[start] == f) { chain[start].to_string() } else { of.clone() }
+                    }
+                    _ => of.clone(),
+                  };
+                  let of = &via;
                   let rel = if opk == pk { format!("./{of}") } else { format!("../{opk}/{of}") };
                   if g.rng.gen_bool(0.25) {
                     format!("import(\"{rel}\").{n}")
@@ -797,6 +1042,14 @@ pub fn gen_world(rng: &mut StdRng, slow: f64) -> FcWorld {
           ("konst", false) => format!("{ex}const {name}: {t1} = null as any;\n"),
           ("konst", true) => format!("{ex}const {name} = JSON.parse(\"1\");\n"),
           ("enum", _) => format!("{ex}enum {name} {{ A, B = 2 }}\n"),
+          // signature features: generics with constraints and defaults, rest / optional parameters, overloads,
+          // abstract / readonly / protected / optional members, index and call signatures
+          ("gfunc", false) => format!("{ex}function {name}<T extends {t1}, U = {t2}>(p: T, o?: U, ...rest: {t2}[]): [T, U] {{ console.log(p, o, rest); return null as any; }}\n"),
+          ("gfunc", true) => format!("{ex}function {name}<T>(p: T) {{ return {{ p, r: Math.random() }}; }}\n"),
+          ("aclass", _) => format!(
+            "{ex}abstract class {name}<T = {t1}> {{ readonly r: T = null as any; protected q?: {t2}; static readonly S: string = \"s\"; abstract am(v: T): {t2}; om?(): void; protected pm(a: {t1}, b?: number): T {{ console.log(a, b); return this.r; }} set w(v: {t2}) {{ console.log(v); }} }}\n"
+          ),
+          ("giface", _) => format!("{ex}interface {name}<K extends string = string> {{ [key: string]: unknown; (arg: {t1}): {t2}; new (arg: K): {name}<K>; m<V>(v: V, ...r: {t1}[]): V; readonly ro?: K; }}\n"),
           ("ns", _) => format!("{ex}namespace {name} {{ export interface Inner {{ v: {t1} }} export const k: number = 1; }}\n"),
           _ => unreachable!(),
         };
@@ -808,6 +1061,12 @@ pub fn gen_world(rng: &mut StdRng, slow: f64) -> FcWorld {
         src.push('\n');
       }
       src.push_str(&body);
+      // barrel chain: a.ts forwards b.ts, b.ts forwards c.ts
+      for (from, to) in [("a.ts", "b.ts"), ("b.ts", "c.ts")] {
+        if f == from && files.contains(&to.to_string()) {
+          src.push_str(&format!("export * from \"./{to}\";\n"));
+        }
+      }
       if f == "mod.ts" {
         for of in files.iter().filter(|x| *x != "mod.ts") {
           match g.rng.gen_range(0..4) {
